@@ -117,7 +117,7 @@ def main():
             "guard": "verif",
             "enable": "go build -tags verif (checks build /repo through a replace directive; C08 additionally uses a generated -overlay that routes package hap's sync import through a scheduler shim)",
             "baseline_off_cmd": "cd /repo && GOFLAGS=-mod=mod go test -vet=off -count=1 ./...",
-            "source_commits": ["87bc922"],
+            "source_commits": ["87bc922", "251c496"],
             "add_only": True,
         },
         "engines": [
